@@ -718,6 +718,8 @@ def write_evidence(prop, tier, seed_value, stats, wall, violations):
         "wall_s": round(wall, 2),
         "violations": violations,
     }
+    if harness.REPO != "/repo" and not os.environ.get("VERIF_EVIDENCE_DIR"):
+        return  # a run against a scratch copy never rewrites the evidence of /repo
     harness.dump_json(evidence, EVIDENCE_DIR / f"{prop.ID}.json")
 
 
